@@ -200,10 +200,12 @@ func init() {
 		Runs: []Run{
 			{Pkg: "fasthttp", Func: "vhC40Route", Quick: map[string]int{"clients": 3}, Thorough: map[string]int{"clients": 5}},
 			{Pkg: "fasthttp", Func: "vhC40NoClients"},
+			{Pkg: "fasthttp", Func: "vhC40RemoveDuringCall", NoNative: true},
 		},
 		Assume: []string{
 			"one LBClient call from an arbitrary state satisfying the invariant penalty ≤ maxPenalty (inductive step), up to `clients` fake BalancingClients with symbolic pending counts, totals, penalties and outcomes; time.AfterFunc/time.Sleep run on the engine's virtual clock",
-			"concurrent calls (the 'once concurrent calls settle' clause) are outside this check",
+			"vhC40RemoveDuringCall: one call selecting among 2..3 clients (the selection yields at every load it reads) while another goroutine removes a suffix of the clients, on the engine's cooperative scheduler: no panic, the call goes to exactly one client or reports ErrNoAvailableClients, later calls use the remaining clients; choices only, not re-run natively",
+			"several concurrent calls (the 'once concurrent calls settle' clause) are outside this check",
 		},
 	})
 }
